@@ -21,6 +21,7 @@ import (
 //	                                     result the real function cannot produce)
 //	H_demo_chan                          valid
 //	H_demo_chan_MUSTFAIL                 violated, replayed natively
+//	H_demo_ghost_EXPECT_INCONCLUSIVE     inconclusive (counterexample to a verifAssertGhost obligation)
 //	H_demo_blocked_EXPECT_INCONCLUSIVE   inconclusive (uncaught verifBlocked)
 //	H_demo_skip_EXPECT_INCONCLUSIVE      inconclusive (native twin used verifSkipReplay)
 
@@ -64,7 +65,7 @@ func H_demo_contract() {
 	b := verifBytes(3)
 	m, err := serde.UnmarshalCBOR[routerMessage](b)
 	verifReach("demo_contract")
-	verifAssert("contract.ghost_records_argument", verifDemoLen == 3)
+	verifAssertGhost("contract.ghost_records_argument", verifDemoLen == 3)
 	if err == nil {
 		verifReach("demo_contract_ok")
 		verifAssert("contract.result_obeys_contract", len(m.Payload) == 1 && m.CorrelationID == "x")
@@ -78,7 +79,7 @@ func H_demo_contract_spy() {
 	ok := c.deposit(1, routerMessage{CorrelationID: "q", Payload: verifBytes(1)})
 	verifReach("demo_contract_spy")
 	verifAssert("spy.real_function_ran", ok && len(c.boxes) == 1 && c.buffered == 1)
-	verifAssert("spy.argument_recorded", verifDemoBoxes == 1 && verifDemoCID == "q")
+	verifAssertGhost("spy.argument_recorded", verifDemoBoxes == 1 && verifDemoCID == "q")
 }
 
 // The contract may return a payload byte that the real CBOR decoder would never produce from
@@ -176,6 +177,15 @@ func H_demo_chan_MUSTFAIL() {
 	}
 	verifReach("demo_chan_mustfail")
 	verifAssert("chan.wrong_send_on_full_channel", sent)
+}
+
+// A wrong claim about ghost state: found by the solver, but the native twin has no ghost state to
+// evaluate it on, so it is reported inconclusive (never VIOLATION, never valid).
+func H_demo_ghost_EXPECT_INCONCLUSIVE() {
+	b := verifBytes(verifLen(2, 3))
+	_, _ = serde.UnmarshalCBOR[routerMessage](b)
+	verifReach("demo_ghost")
+	verifAssertGhost("ghost.wrong_length_claim", verifDemoLen == 3)
 }
 
 func H_demo_blocked_EXPECT_INCONCLUSIVE() {
